@@ -55,11 +55,11 @@ LOG (decisions)
   "sequence" carries both protos).
 * Reading of "consistent", extended: besides I1-I7, everything a value of the returned model is linked to must be
   part of the model (I1x: a consumer in no graph of the model; I2x: a producer in no graph of the model; a produced
-  value is owned by its producer's graph).  On the unchanged tree I1x fails at one site, recorded as KNOWN finding
+  value is owned by its producer's graph).  I1x failed at one site on the tree as it was: finding
   ghost-consumers-of-dropped-duplicate-attribute (a GRAPH attribute dropped because a later attribute repeats its
-  name has already been deserialized: its nodes stay in uses() of outer values; I1-I7 hold pairwise, Inv is not
-  violated; proposed_fixes/C17-duplicate-attribute-last-only.diff); attribution by repair = keep the last
-  attribute of a repeated name.
+  name had already been deserialized: its nodes stayed in uses() of outer values; I1-I7 held pairwise), fixed in
+  /repo by 840d15c = proposed_fixes/C17-duplicate-attribute-last-only.diff; Model.deser_attrs / PUnfold.pu_as
+  follow the fix (skip an attribute whose name occurs again later).
 * Reading of "raises": any exception type (SerdeError wraps everything); only raise-vs-return is compared.
 * Reading of "consistent": C01's I1-I7 restricted to what public accessors show (Value.graph falls back to
   the producer's graph, so I7 is checked for producer-less values; ref-counts of the IO lists are not
